@@ -409,6 +409,7 @@ func c09(c *core.Ctx, r *core.Report) {
 				bad = append(bad, fmt.Sprintf("Args[%d]=%v but the function has %d parameter(s) incl. receiver", i, row, np))
 			}
 		}
+		c09contracts(c, r, e.mapVar+"|"+e.key, pos, sig, e.args)
 		if len(bad) > 0 {
 			r.Fail("R09.align", e.mapVar+"|"+e.key, pos, fmt.Sprintf("%s (%s): the flow the table asserts from parameter to these targets is silently discarded by the loader's range checks", strings.Join(bad, "; "), sig.String()))
 		} else {
@@ -519,4 +520,97 @@ func c09witness(c *core.Ctx, r *core.Report, entries []stdEntry, resolved map[st
 		}
 	}
 	r.Extra["witness_bodies_analysed"] = n
+}
+
+// c09contracts (R09.io): type-driven cross-check of a summary row against the
+// contracts of io.Reader and io.Writer, which the standard library documents
+// and every summarised function with such parameters relies on:
+//
+//	a parameter (or receiver) whose type has Read([]byte) (int, error) and another
+//	parameter of type []byte: Read stores the reader's data in the buffer, so the
+//	reader position must list the buffer position in Args;
+//	a parameter whose type has Write([]byte) (int, error) and another parameter of
+//	type []byte or string: the data position must list the writer position.
+//
+// Instances are counted (the rule is confirmed on every entry of the table that
+// has the shape; see the report) and each is an obligation.
+func c09contracts(c *core.Ctx, r *core.Report, key, pos string, sig *types.Signature, args [][]int) {
+	// the method's own name fixes the receiver's role when its type is both a reader and a writer
+	mname := key[strings.LastIndex(key, ".")+1:]
+	var params []types.Type
+	if sig.Recv() != nil {
+		params = append(params, sig.Recv().Type())
+	}
+	for i := 0; i < sig.Params().Len(); i++ {
+		params = append(params, sig.Params().At(i).Type())
+	}
+	hasMethod := func(t types.Type, name string) bool {
+		for _, tt := range []types.Type{t, types.NewPointer(t)} {
+			obj, _, _ := types.LookupFieldOrMethod(tt, true, nil, name)
+			f, ok := obj.(*types.Func)
+			if !ok {
+				continue
+			}
+			s := f.Type().(*types.Signature)
+			if s.Params().Len() != 1 || s.Results().Len() != 2 {
+				continue
+			}
+			if sl, ok := s.Params().At(0).Type().Underlying().(*types.Slice); ok {
+				if b, ok := sl.Elem().Underlying().(*types.Basic); ok && b.Kind() == types.Byte {
+					return true
+				}
+			}
+		}
+		return false
+	}
+	isBytes := func(t types.Type) bool {
+		sl, ok := t.Underlying().(*types.Slice)
+		if !ok {
+			return false
+		}
+		b, ok := sl.Elem().Underlying().(*types.Basic)
+		return ok && (b.Kind() == types.Byte || b.Kind() == types.Uint8)
+	}
+	isString := func(t types.Type) bool {
+		b, ok := t.Underlying().(*types.Basic)
+		return ok && b.Kind() == types.String
+	}
+	lists := func(i, j int) bool {
+		if i >= len(args) {
+			return false
+		}
+		for _, k := range args[i] {
+			if k == j {
+				return true
+			}
+		}
+		return false
+	}
+	for i, ti := range params {
+		for j, tj := range params {
+			if i == j {
+				continue
+			}
+			recvIs := func(role string) bool {
+				return i == 0 && sig.Recv() != nil && (mname == role || (role == "Read" && mname == "ReadAt") || (role == "Write" && (mname == "WriteString" || mname == "WriteAt")))
+			}
+			if hasMethod(ti, "Read") && isBytes(tj) && (!hasMethod(ti, "Write") || recvIs("Read")) && !recvIs("Write") {
+				r.Check(lists(i, j), "R09.io", fmt.Sprintf("%s|reader#%d->buffer#%d", key, i, j), pos,
+					"the reader position flows to the buffer position",
+					fmt.Sprintf("parameter #%d is a reader (has Read([]byte)) and parameter #%d a []byte buffer, but Args[%d]=%v does not list %d: the data read into the buffer is not tainted by the reader (io.Reader contract)", i, j, i, rowOf(args, i), j))
+			}
+			if hasMethod(ti, "Write") && (isBytes(tj) || isString(tj)) && (!hasMethod(ti, "Read") || recvIs("Write")) && !recvIs("Read") {
+				r.Check(lists(j, i), "R09.io", fmt.Sprintf("%s|data#%d->writer#%d", key, j, i), pos,
+					"the data position flows to the writer position",
+					fmt.Sprintf("parameter #%d is a writer (has Write([]byte)) and parameter #%d the data written, but Args[%d]=%v does not list %d: what is written does not taint the writer (io.Writer contract)", i, j, j, rowOf(args, j), i))
+			}
+		}
+	}
+}
+
+func rowOf(m [][]int, i int) []int {
+	if i < len(m) {
+		return m[i]
+	}
+	return nil
 }
